@@ -31,13 +31,13 @@ def nunique(label):
     return ir.uf('n_unique', [colwhole(label)], 'I')
 
 
-def fit_model(I, c, labels, distribution, constant=(), random_state=None, X=None):
+def fit_model(I, c, labels, distribution, constant=(), random_state=None, X=None, model=None):
     """fit GaussianMultivariate(distribution) on a symbolic table with the given labels; columns in `constant`
     are constant, the others have at least two distinct values. returns the model object."""
     kw = {'distribution': distribution} if distribution is not None else {}
     if random_state is not None:
         kw['random_state'] = random_state
-    m = I.call_qual(GM, [], kw)
+    m = model if model is not None else I.call_qual(GM, [], kw)
     c.assume(ir.ge(N, 2))
     for l in labels:
         c.assume(ir.eq(nunique(l), 1) if l in constant else ir.gt(nunique(l), 1))
